@@ -23,9 +23,9 @@ Proof. exact XfrSafety.process_message_pub. Qed.
 Print Assumptions no_error_after_apply.
 
 (* the same for process_message used without the driver: as long as no call returned True, the
-   zone is untouched (feed lists -1 for a call that returned True) *)
+   zone is untouched (feed lists rTrue for a call that returned True) *)
 Theorem not_done_leaves_zone : forall ms s l z,
-  feed s ms = (l, z) -> ~ In (-1) l -> z = pub s.
+  feed s ms = (l, z) -> ~ In rTrue l -> z = pub s.
 Proof. exact XfrSafety.feed_not_done_leaves_zone. Qed.
 Print Assumptions not_done_leaves_zone.
 
